@@ -80,6 +80,12 @@ macro_rules! run_size {
 }
 
 pub fn exec(cx: &mut Ctx, c: &Case) {
+    let enc = cx.prop != "C10";
+    let dec = cx.prop != "C09";
+    exec_mode(cx, c, enc, dec)
+}
+
+pub fn exec_mode(cx: &mut Ctx, c: &Case, do_enc: bool, do_dec: bool) {
     let (key, t0, t1, blk) = operands(c);
     let unroll = if cfg!(feature = "nounroll") { "no_unroll" } else { "unrolled" };
     let sigp = format!("{}|threefish{}|{}|{}", cx.prop, c.nb * 8, unroll, api::profile());
@@ -96,13 +102,14 @@ pub fn exec(cx: &mut Ctx, c: &Case) {
             return;
         }
     };
-    if cx.prop == "C09" {
+    if do_enc {
         cx.log.eval(1);
         let exp = rtf::encrypt(&key, t0, t1, &blk);
         if e != exp {
             cx.log.violation(&format!("{}|wrong-ciphertext", sigp), &format!("encrypt gives {} reference {}", hex(&e[..16]), hex(&exp[..16])));
         }
-    } else {
+    }
+    if do_dec {
         cx.log.eval(3);
         if de != blk {
             cx.log.violation(&format!("{}|decrypt-of-encrypt-not-identity", sigp), "decrypt(encrypt(x)) != x");
